@@ -536,7 +536,7 @@ SAFE = {
     "dict": dict, "list": list, "tuple": tuple, "range": range, "enumerate": enumerate, "zip": zip,
     "reversed": reversed, "sorted": sorted, "len": len, "bytes": bytes, "int": int, "set": set,
     "frozenset": frozenset, "abs": abs, "min": min, "max": max, "sum": sum, "bool": bool, "str": str,
-    "divmod": divmod, "float": float, "bytearray": bytearray, "any": any, "all": all, "map": map,
+    "divmod": divmod, "float": float, "bytearray": bytearray, "any": any, "all": all, "map": map, "slice": slice, "pow": pow, "filter": filter,
 }
 MAX_STEPS = 2_000_000
 
@@ -866,6 +866,10 @@ class Folder:
         raise Unfoldable(f"call {fn_txt}")
 
     def external_call(self, name: str, args, kw):
+        if name == "types.MappingProxyType" and len(args) == 1 and isinstance(args[0], dict):
+            return args[0]   # read-only view of a constant table: folded as the table
+        if name in ("bitarray.frozenbitarray", "frozenbitarray") and args:
+            return self.external_call("bitarray.bitarray", args, kw)
         if name in ("numpy.array", "numpy.asarray"):
             v = args[0]
             if isinstance(v, NPArr):
